@@ -1,6 +1,7 @@
 package props
 
 import (
+	"bufio"
 	"bytes"
 	"context"
 	"fmt"
@@ -38,6 +39,7 @@ func init() {
 			need(m, &out, "snapshot_recomparisons", 50000)
 			need(m, &out, "pool_recycles_forced", 100)
 			need(m, &out, "muxer_input_recomparisons", 500)
+			need(m, &out, "muxer_alias_sessions_in_which_a_write_failed", 30)
 			need(m, &out, "concurrent_runs", 20)
 			need(m, &out, "goroutine_switch_points", 1000)
 			need(m, &out, "concurrent_instances_compared", 200)
@@ -45,6 +47,7 @@ func init() {
 			need(m, &out, "reentrant_overlaps", 100)
 			need(m, &out, "history_independence_checks", 300)
 			need(m, &out, "muxers_in_lockstep", 100)
+			need(m, &out, "demuxers_in_lockstep", 300)
 			need(m, &out, "scribbled_runs", 200)
 			need(m, &out, "streams_with_repeated_tables", 30)
 			need(m, &out, "data_built_by_a_retaining_parser", 300)
@@ -304,6 +307,11 @@ func runC16(c *mon.Ctx) {
 		}
 		overlapCase(c, i, c.Rng("overlap", i))
 	}
+	for i := int64(0); i < c.Pick(400, 10000); i++ {
+		if c.Mine("demux-lockstep", i) {
+			demuxLockstepCase(c, i, c.Rng("demux-lockstep", i))
+		}
+	}
 	nl := c.Pick(250, 6000)
 	for i := int64(0); i < nl; i++ {
 		if !c.Mine("mux-lockstep", i) {
@@ -376,12 +384,23 @@ func overlapCase(c *mon.Ctx, idx int64, r *rand.Rand) {
 	}
 	api := []string{"data", "packet"}[idx%2]
 	limit := len(a) + len(b) + 64
-	solo := func(in []byte, seek bool, chunk int) []string {
-		yr := &yieldReader{data: in, chunk: chunk}
-		if seek {
-			return digests(astits.NewDemuxer(context.Background(), yr), api, limit)
+	// reader kinds: seekable, read-only, and a bufio.Reader smaller than the detection window (16, 64 or 192 bytes: the window is
+	// then kept by the packet buffer beyond the first packet)
+	small := 0
+	if idx%6 >= 4 {
+		small = []int{16, 64, 192}[int(idx/6)%3]
+	}
+	rdr := func(yr *yieldReader, seek bool) io.Reader {
+		switch {
+		case small > 0:
+			return bufio.NewReaderSize(plainYield{yr}, small)
+		case seek:
+			return yr
 		}
-		return digests(astits.NewDemuxer(context.Background(), plainYield{yr}), api, limit)
+		return plainYield{yr}
+	}
+	solo := func(in []byte, seek bool, chunk int) []string {
+		return digests(astits.NewDemuxer(context.Background(), rdr(&yieldReader{data: in, chunk: chunk}, seek)), api, limit)
 	}
 	seek := idx%4 < 2
 	chunk := 1 + r.IntN(120)
@@ -389,6 +408,10 @@ func overlapCase(c *mon.Ctx, idx int64, r *rand.Rand) {
 	wantB := solo(b, true, 1<<20)
 	// (a)
 	at := r.IntN(6) // which Read of A triggers B: the first ones belong to the detection window
+	if small > 0 {
+		at = r.IntN(3 * 193 / small) // around the end of the window and the first packets behind it
+		c.Count("overlaps_on_small_bufio_readers")
+	}
 	reads := 0
 	var gotB []string
 	ranB := false
@@ -396,17 +419,13 @@ func overlapCase(c *mon.Ctx, idx int64, r *rand.Rand) {
 	yr.mark = func() {
 		if reads == at {
 			ranB = true
-			gotB = digests(astits.NewDemuxer(context.Background(), &yieldReader{data: b, chunk: 1 << 20}), api, limit)
+			gotB = digests(astits.NewDemuxer(context.Background(), rdr(&yieldReader{data: b, chunk: 1 << 20}, true)), api, limit)
 		}
 		reads++
 	}
 	var gotA []string
 	if pn, v, st := mon.Guarded(func() {
-		if seek {
-			gotA = digests(astits.NewDemuxer(context.Background(), yr), api, limit)
-		} else {
-			gotA = digests(astits.NewDemuxer(context.Background(), plainYield{yr}), api, limit)
-		}
+		gotA = digests(astits.NewDemuxer(context.Background(), rdr(yr, seek)), api, limit)
 	}); pn {
 		c.Violate("C16/overlap/panic", "overlap", idx, fmt.Sprintf("%v\n%s", v, st), nil)
 		return
@@ -488,6 +507,102 @@ func firstDifference(a, b []string) string {
 
 // muxLockstepCase: 2..4 Muxers alive at once, their histories executed in turns (one operation each, round-robin with random
 // strides): every Muxer must write exactly the bytes it writes when it is the only one.
+// demuxLockstepCase: two to four Demuxers, each on a stream and a reader of its own (seekable, read-only, bufio.Reader of 4096 bytes or
+// smaller than the detection window; size detected or given), called in turns — one or a few calls of one, then of the next: every
+// one of them returns what it returns when it runs alone.
+func demuxLockstepCase(c *mon.Ctx, idx int64, r *rand.Rand) {
+	n := 2 + r.IntN(3)
+	type dx struct {
+		in    []byte
+		cfg   DemuxCfg
+		solo  []string
+		dmx   *astits.Demuxer
+		got   []string
+		done  bool
+		calls int
+	}
+	one := func(d *astits.Demuxer, api string) (string, bool) {
+		var v any
+		var err error
+		if api == "data" {
+			v, err = d.NextData()
+		} else {
+			v, err = d.NextPacket()
+		}
+		if err == astits.ErrNoMorePackets {
+			return "", true
+		}
+		if err != nil {
+			return "err:" + err.Error(), false
+		}
+		return deepString(v), false
+	}
+	ds := make([]*dx, n)
+	for k := range ds {
+		var in []byte
+		for {
+			m := gen.RandomModel(r, gen.ModelOpts{MaxPES: 2, MaxPMT: 1, MaxSI: 2, MaxUnits: 3, MaxPESLen: 900})
+			in = m.Build(r).Bytes
+			if len(in) >= 376 && in[184] != 0x47 && in[185] != 0x47 && in[186] != 0x47 && in[187] != 0x47 {
+				break
+			}
+		}
+		cfg := DemuxCfg{API: []string{"data", "packet"}[r.IntN(2)], PacketSize: []int{0, 0, 188}[r.IntN(3)]}
+		switch r.IntN(5) {
+		case 0:
+			cfg.Reader = "seek"
+		case 1:
+			cfg.Reader = "plain"
+		case 2:
+			cfg.Reader, cfg.BufioSize = "bufio", 4096
+		default:
+			cfg.Reader, cfg.BufioSize = "bufio", []int{16, 64, 192}[r.IntN(3)]
+			c.Count("lockstep_demuxers_on_small_bufio_readers")
+		}
+		d := &dx{in: in, cfg: cfg}
+		sd, _ := NewDemuxerFor(in, cfg)
+		for q := 0; q < len(in)+64; q++ {
+			s, end := one(sd, cfg.API)
+			if end {
+				break
+			}
+			d.solo = append(d.solo, s)
+		}
+		d.dmx, _ = NewDemuxerFor(in, cfg)
+		ds[k] = d
+	}
+	if pn, v, st := mon.Guarded(func() {
+		for left := n; left > 0; {
+			left = 0
+			for _, d := range ds {
+				for q := 0; q < 1+r.IntN(3) && !d.done; q++ {
+					s, end := one(d.dmx, d.cfg.API)
+					d.calls++
+					if end || d.calls > len(d.in)+64 {
+						d.done = true
+						break
+					}
+					d.got = append(d.got, s)
+				}
+				if !d.done {
+					left++
+				}
+			}
+		}
+	}); pn {
+		c.Violate("C16/lockstep/panic", "demux-lockstep", idx, fmt.Sprintf("%v\n%s", v, st), nil)
+		return
+	}
+	c.Count("demuxers_in_lockstep")
+	for k, d := range ds {
+		if df := firstDifference(d.got, d.solo); df != "" {
+			c.Violate("C16/lockstep/demuxer-disturbed-by-another:"+d.cfg.Reader, "demux-lockstep", idx, fmt.Sprintf("demuxer %d of %d (%s, bufio size %d) called in turns with the others vs alone: %s", k, n, d.cfg.String(), d.cfg.BufioSize, df), map[string]any{"stream": mon.Hex(d.in, 1200)})
+			break
+		}
+	}
+	c.Case(mon.HashStr("demux-lockstep", fmt.Sprint(idx)), true)
+}
+
 func muxLockstepCase(c *mon.Ctx, idx int64, r *rand.Rand) {
 	n := 2 + r.IntN(3)
 	type mx struct {
@@ -652,8 +767,33 @@ func aliasCase(c *mon.Ctx, idx int64, r *rand.Rand, s1, s2 *gen.Stream, api stri
 	recheck(0, "after the input buffer was overwritten and the pool reused")
 }
 
+// budgetWriter accepts bytes up to a budget, then refuses a Write (once, or from then on).
+type budgetWriter struct {
+	bytes.Buffer
+	budget    int
+	permanent bool
+	failures  int
+}
+
+func (w *budgetWriter) Write(p []byte) (int, error) {
+	if w.Len()+len(p) > w.budget {
+		w.failures++
+		if !w.permanent {
+			w.budget = 1 << 40
+		}
+		return 0, mon.ErrInjected
+	}
+	return w.Buffer.Write(p)
+}
+
 func muxAliasCase(c *mon.Ctx, idx int64, r *rand.Rand) {
-	out := &bytes.Buffer{}
+	out := &budgetWriter{budget: 1 << 40}
+	if idx%2 == 1 {
+		// the writer runs out of room somewhere in the session (for one Write, or for good): a failing call leaves the caller's
+		// bytes as untouched as a successful one
+		out.budget, out.permanent = r.IntN(5000), r.IntN(2) == 0
+		c.Count("muxer_alias_sessions_with_a_failing_writer")
+	}
 	m := astits.NewMuxer(context.Background(), out, astits.MuxerOptTablesRetransmitPeriod(1+r.IntN(5)))
 	type held struct {
 		live, copy []byte
@@ -747,6 +887,9 @@ func muxAliasCase(c *mon.Ctx, idx int64, r *rand.Rand) {
 				return
 			}
 		}
+	}
+	if out.failures > 0 {
+		c.Count("muxer_alias_sessions_in_which_a_write_failed")
 	}
 	c.Case(mon.HashBytes("muxalias", out.Bytes()), true)
 }
